@@ -481,7 +481,12 @@ def main(argv=None):
     ev = {'property_id': prop, 'tier': tier, 'seed': a.seed, 'level': level, 'coverage': coverage,
           'assumptions': assumed + coverage['python_semantics_assumed'], 'wall_s': wall,
           'violations': len(violations)}
-    with open(os.path.join(HERE, 'evidence', prop + '.json'), 'w') as f:
+    # a run against a scratch tree (seeded-change / harmless-edit self-tests) must not overwrite the
+    # evidence of /repo itself, nor the lock
+    scratch = os.path.realpath(repo_root()) != '/repo'
+    if scratch:
+        a.write_lock = False
+    with open(os.path.join(HERE, 'evidence', ('.scratch_' if scratch else '') + prop + '.json'), 'w') as f:
         json.dump(ev, f, indent=1, ensure_ascii=False, default=repr)
     if a.write_lock:
         lk = load_lock() or {}
